@@ -11,7 +11,11 @@ package contractcourt
 //
 //  1. the state hint decoded from the real revoked transaction (the fully
 //     signed commitment C held at h, recorded by the engine before C revoked
-//     it) is h, and the retribution names that transaction;
+//     it) is h, and V's REAL chain watcher (newChainWatcher on the reloaded
+//     state; newChainSet, extractStateNumHint with its own obfuscator,
+//     handleKnownLocalState, handleKnownRemoteState -> handlePossibleBreach
+//     -> dispatchContractBreach) hands exactly one retribution for state h
+//     and that transaction to the breach arbitrator;
 //  2. lnwallet.NewBreachRetribution succeeds with and without the breach
 //     transaction supplied (and with/without amount data in the revocation
 //     log);
@@ -38,8 +42,10 @@ import (
 	"encoding/hex"
 	"errors"
 	"fmt"
+	"reflect"
 	"sort"
 	"testing"
+	"unsafe"
 
 	"github.com/btcsuite/btcd/btcec/v2"
 	"github.com/btcsuite/btcd/txscript/v2"
@@ -48,6 +54,7 @@ import (
 	"github.com/lightningnetwork/lnd/channeldb"
 	"github.com/lightningnetwork/lnd/fn/v2"
 	"github.com/lightningnetwork/lnd/input"
+	lnmock "github.com/lightningnetwork/lnd/lntest/mock"
 	"github.com/lightningnetwork/lnd/lnwallet"
 	"github.com/lightningnetwork/lnd/lnwallet/chainfee"
 )
@@ -273,11 +280,73 @@ func (c *verifC04Case) snapshot() {
 	}
 }
 
+type verifC04Variant struct {
+	name string
+	jt   *justiceTxCtx
+}
+
+// verifC04Variants enumerates every justice transaction createJusticeTx
+// produced, whatever the variant fields are called (read through reflection
+// so that a variant added to justiceTxVariants is judged as well).
+func verifC04Variants(txs *justiceTxVariants) []verifC04Variant {
+	var out []verifC04Variant
+	v := reflect.ValueOf(txs).Elem()
+	for i := 0; i < v.NumField(); i++ {
+		f := v.Field(i)
+		f = reflect.NewAt(f.Type(), unsafe.Pointer(f.UnsafeAddr())).Elem()
+		name := v.Type().Field(i).Name
+		switch x := f.Interface().(type) {
+		case *justiceTxCtx:
+			if x != nil {
+				out = append(out, verifC04Variant{name, x})
+			}
+		case []*justiceTxCtx:
+			for k, y := range x {
+				if y != nil {
+					out = append(out, verifC04Variant{fmt.Sprintf("%s[%d]", name, k), y})
+				}
+			}
+		}
+	}
+	return out
+}
+
+// execVariants runs the interpreter on every input of every variant and
+// checks that every breached output is an input of at least one of them.
+func (c *verifC04Case) execVariants(ctx string, txs *justiceTxVariants,
+	outs []breachedOutput, prev map[wire.OutPoint]*wire.TxOut,
+	revokedTx *wire.MsgTx) bool {
+
+	ok := true
+	spent := map[wire.OutPoint]bool{}
+	for _, v := range verifC04Variants(txs) {
+		c.vc.Count("justice_txs", 1)
+		if !c.execJustice(ctx+" variant="+v.name, v.jt, prev, revokedTx) {
+			ok = false
+		}
+		for _, in := range v.jt.justiceTx.TxIn {
+			spent[in.PreviousOutPoint] = true
+		}
+	}
+	for i := range outs {
+		if !spent[outs[i].outpoint] {
+			c.viol("punish_complete", fmt.Sprintf("in-no-justice-tx/%v/%s", outs[i].witnessType,
+				c.p.TypeName),
+				fmt.Sprintf("%s: breached output %v (%v, %d sat) is an input of none of the justice "+
+					"transactions built", ctx, outs[i].outpoint, outs[i].witnessType, outs[i].amt))
+			ok = false
+		}
+	}
+	if txs.spendAll == nil || len(txs.spendAll.justiceTx.TxIn) != len(outs) {
+		c.vc.Diag("spendAll_not_all_outputs", ctx)
+	}
+	return ok
+}
+
 // execJustice runs the script interpreter on every input of one justice
 // transaction against the REAL previous outputs. ok=false after a violation.
 func (c *verifC04Case) execJustice(ctx string, jt *justiceTxCtx,
-	prev map[wire.OutPoint]*wire.TxOut, revokedTx *wire.MsgTx,
-	counter string) bool {
+	prev map[wire.OutPoint]*wire.TxOut, revokedTx *wire.MsgTx) bool {
 
 	tx := jt.justiceTx
 	if len(jt.inputs) != len(tx.TxIn) {
@@ -302,7 +371,11 @@ func (c *verifC04Case) execJustice(ctx string, jt *justiceTxCtx,
 	ok := true
 	for i, in := range tx.TxIn {
 		out := prev[in.PreviousOutPoint]
-		c.vc.Count(counter, 1)
+		c.vc.Count("oracle_justice_inputs", 1)
+		switch jt.inputs[i].WitnessType() {
+		case input.HtlcSecondLevelRevoke, input.TaprootHtlcSecondLevelRevoke:
+			c.vc.Count("oracle_second_level_inputs", 1)
+		}
 		err := lnwallet.VerifExec(out.PkScript, out.Value, tx, i, fetcher)
 		if err != nil {
 			ok = false
@@ -482,7 +555,7 @@ func (c *verifC04Case) justiceAll(ctx string, victim int, db *channeldb.DB,
 		c.failed = true
 		return false
 	}
-	if err != nil || txs == nil || txs.spendAll == nil {
+	if err != nil || txs == nil {
 		c.viol("justice_build", "createJusticeTx/"+c.p.TypeName,
 			fmt.Sprintf("%s: createJusticeTx over %d breached outputs failed: %v\nrevoked=%s",
 				ctx, len(ret.breachedOutputs), err, verifC04TxHex(revokedTx)))
@@ -493,49 +566,7 @@ func (c *verifC04Case) justiceAll(ctx string, victim int, db *channeldb.DB,
 	for i, o := range revokedTx.TxOut {
 		prev[wire.OutPoint{Hash: txid, Index: uint32(i)}] = o
 	}
-	// the normal justice tx must spend everything recorded.
-	if len(txs.spendAll.justiceTx.TxIn) != len(ret.breachedOutputs) {
-		c.viol("punish_complete", "spendAll-drops-input/"+c.p.TypeName,
-			fmt.Sprintf("%s: spendAll has %d inputs for %d breached outputs", ctx,
-				len(txs.spendAll.justiceTx.TxIn), len(ret.breachedOutputs)))
-		return false
-	}
-	nCommit, nHtlc := 0, 0
-	for i := range ret.breachedOutputs {
-		switch ret.breachedOutputs[i].witnessType {
-		case input.HtlcAcceptedRevoke, input.HtlcOfferedRevoke,
-			input.TaprootHtlcAcceptedRevoke, input.TaprootHtlcOfferedRevoke:
-			nHtlc++
-		default:
-			nCommit++
-		}
-	}
-	ok := true
-	variants := []struct {
-		name string
-		jt   *justiceTxCtx
-		want int
-	}{
-		{"spendAll", txs.spendAll, len(ret.breachedOutputs)},
-		{"spendCommitOuts", txs.spendCommitOuts, nCommit},
-		{"spendHTLCs", txs.spendHTLCs, nHtlc},
-	}
-	for _, v := range variants {
-		if v.jt == nil {
-			if v.want > 0 {
-				c.viol("justice_build", v.name+"-missing/"+c.p.TypeName,
-					fmt.Sprintf("%s: variant %s was not built although %d inputs belong to it",
-						ctx, v.name, v.want))
-				ok = false
-			}
-			continue
-		}
-		c.vc.Count("justice_txs", 1)
-		if !c.execJustice(ctx+" variant="+v.name, v.jt, prev, revokedTx, "oracle_justice_inputs") {
-			ok = false
-		}
-	}
-	return ok
+	return c.execVariants(ctx, txs, ret.breachedOutputs, prev, revokedTx)
 }
 
 // negativeControl: the pipeline of oracle 4 with the revocation secret of a
@@ -700,39 +731,13 @@ func (c *verifC04Case) secondLevel(ctx string, victim int, db *channeldb.DB,
 		c.failed = true
 		return false
 	}
-	if err != nil || txs == nil || txs.spendAll == nil {
+	if err != nil || txs == nil {
 		c.viol("justice_build", "createJusticeTx-second-level/"+c.p.TypeName,
 			fmt.Sprintf("%s: createJusticeTx after second-level conversion failed: %v", ctx, err))
 		return false
 	}
-	if len(txs.spendSecondLevelHTLCs) != len(adv) {
-		c.viol("justice_build", "second-level-variant-count/"+c.p.TypeName,
-			fmt.Sprintf("%s: %d second-level justice txs for %d advanced HTLCs", ctx,
-				len(txs.spendSecondLevelHTLCs), len(adv)))
-		return false
-	}
-	all := []*justiceTxCtx{txs.spendAll}
-	if txs.spendCommitOuts != nil {
-		all = append(all, txs.spendCommitOuts)
-	}
-	if txs.spendHTLCs != nil {
-		all = append(all, txs.spendHTLCs)
-	}
-	ok := true
-	for _, jt := range all {
-		if !c.execJustice(ctx+" after-second-level", jt, prev, revokedTx, "oracle_justice_inputs") {
-			ok = false
-		}
-	}
-	for _, jt := range txs.spendSecondLevelHTLCs {
-		if !c.execJustice(ctx+" second-level-sweep", jt, prev, revokedTx,
-			"oracle_second_level_inputs") {
-
-			ok = false
-		}
-	}
 	c.nSecond += len(adv)
-	return ok
+	return c.execVariants(ctx+" after-second-level", txs, ret.breachedOutputs, prev, revokedTx)
 }
 
 // breachChecks runs oracles 1-5 with party `victim` as the victim.
@@ -747,6 +752,30 @@ func (c *verifC04Case) breachChecks(victim int) {
 	st := fv.State()
 	obf := verifC04Obfuscator(st)
 	held := c.e.HeldTxs(cheater)
+
+	// The REAL chain watcher of the victim (never started: its handlers
+	// are called directly with the spend of the funding output). It
+	// decodes the state hint, tells the breach apart from the known
+	// commitments and hands the retribution to the contractBreach callback.
+	var dispatched []*lnwallet.BreachRetribution
+	watcher, err := newChainWatcher(chainWatcherConfig{
+		chanState: st,
+		notifier: &lnmock.ChainNotifier{
+			SpendChan: make(chan *chainntnfs.SpendDetail, 1),
+			EpochChan: make(chan *chainntnfs.BlockEpoch),
+			ConfChan:  make(chan *chainntnfs.TxConfirmation, 1),
+		},
+		signer:              c.e.Signer(victim),
+		extractStateNumHint: lnwallet.GetStateNumHint,
+		chanCloseConfs:      fn.Some(uint32(1)),
+		contractBreach: func(r *lnwallet.BreachRetribution) error {
+			dispatched = append(dispatched, r)
+			return nil
+		},
+	})
+	if err != nil {
+		c.t.Fatalf("C04: newChainWatcher on the victim's reloaded state: %v", err)
+	}
 	// heights the victim holds a revocation for: everything below the
 	// persisted remote tail.
 	revokedBelow := st.RemoteCommitment.CommitHeight
@@ -777,6 +806,61 @@ func (c *verifC04Case) breachChecks(victim int) {
 			continue
 		}
 
+		// oracle 1 through the real chain watcher: the spend of the
+		// funding output by the revoked tx must be dispatched as a
+		// breach of exactly this state.
+		var brWatcher *lnwallet.BreachRetribution
+		{
+			txid := revokedTx.TxHash()
+			fundingOp := st.FundingOutpoint
+			dispatched = dispatched[:0]
+			var (
+				werr              error
+				asLocal, asRemote bool
+			)
+			c.vc.Count("oracle_watcher_dispatch_evals", 1)
+			// The steps of chainWatcher.handleCommitSpend up to the
+			// point where a breach is dispatched, in its order, with
+			// its own functions and its own obfuscator. (The method
+			// itself is not called: for an unrecognised state it
+			// ends in the data-loss wait loop, which never returns.)
+			if c.vc.Guard("state_recognised", "watcher-panic/"+c.p.TypeName, base, func() {
+				spendDetail := &chainntnfs.SpendDetail{
+					SpentOutPoint: &fundingOp, SpenderTxHash: &txid, SpendingTx: revokedTx,
+					SpenderInputIndex: 0, SpendingHeight: verifC04BreachHeight,
+				}
+				var cs *chainSet
+				cs, werr = newChainSet(watcher.cfg.chanState)
+				if werr != nil {
+					return
+				}
+				num := watcher.cfg.extractStateNumHint(revokedTx, watcher.stateHintObfuscator)
+				asLocal, werr = watcher.handleKnownLocalState(spendDetail, num, cs)
+				if werr != nil || asLocal {
+					return
+				}
+				asRemote, werr = watcher.handleKnownRemoteState(spendDetail, num, cs)
+			}) {
+				c.failed = true
+				return
+			}
+			switch {
+			case werr != nil || asLocal || !asRemote || len(dispatched) != 1:
+				c.viol("state_recognised", "watcher-no-breach-dispatch/"+c.p.TypeName,
+					fmt.Sprintf("%s: chain watcher on the revoked tx: err=%v, taken for our own "+
+						"commitment=%v, recognised as a remote state=%v, breach retributions handed "+
+						"off=%d (want 1)\nrevoked=%s", base, werr, asLocal, asRemote,
+						len(dispatched), verifC04TxHex(revokedTx)))
+			case dispatched[0].RevokedStateNum != h || dispatched[0].BreachTxHash != txid:
+				c.viol("state_recognised", "watcher-wrong-state/"+c.p.TypeName,
+					fmt.Sprintf("%s: chain watcher dispatched a breach of state %d / tx %v for the "+
+						"revoked tx %v", base, dispatched[0].RevokedStateNum,
+						dispatched[0].BreachTxHash, txid))
+			default:
+				brWatcher = dispatched[0]
+			}
+		}
+
 		viaStore := c.r.Chance(1, 3)
 		var brWithTx *lnwallet.BreachRetribution
 		for _, withTx := range []bool{true, false} {
@@ -790,7 +874,11 @@ func (c *verifC04Case) breachChecks(victim int) {
 				err error
 			)
 			c.vc.Count("oracle_retribution_evals", 1)
-			if c.vc.Guard("retribution_build", "NewBreachRetribution-panic/"+c.p.TypeName, ctx, func() {
+			if withTx && brWatcher != nil {
+				// the retribution the chain watcher itself built
+				// from (state, hint, spend tx).
+				br = brWatcher
+			} else if c.vc.Guard("retribution_build", "NewBreachRetribution-panic/"+c.p.TypeName, ctx, func() {
 				br, err = lnwallet.NewBreachRetribution(st, h, verifC04BreachHeight, spendTx,
 					fn.None[lnwallet.AuxLeafStore](), fn.None[lnwallet.AuxContractResolver]())
 			}) {
@@ -958,7 +1046,7 @@ func verifC04RunCase(t *testing.T, vc *lnwallet.VerifCtx, i int) {
 func TestVerifC04(t *testing.T) {
 	vc := lnwallet.VerifStart(t, "C04", "breach")
 	defer vc.Finish()
-	total := vc.N(320, 9000)
+	total := vc.N(320, 12000)
 	for i := 0; i < total; i++ {
 		if !vc.Mine(i) {
 			continue
